@@ -10,15 +10,19 @@
   Fields are separated by `,`, every row is terminated by LF.  A row has at least one field (a row with no
   field has no rendering of its own: the empty line is the one-field row `[none]`).
 
-  `decode` is a strict reader of exactly this dialect (one structural pass, four modes); it answers `none`
-  for anything else (unterminated quote, text after a closing quote, bare quote or CR in an unquoted field,
-  missing final LF).
+  `decode` is a strict reader of exactly this dialect (one structural pass, five modes); it answers `none`
+  for anything else (unterminated quote, text after a closing quote, bare quote in an unquoted field, a CR
+  that is not followed by LF, missing final line end).  A row may also end in CR LF (Python's `csv.writer`,
+  which writes `_scalars.csv`); the writer modelled here always ends a row with LF.
 -/
 namespace VtlModel.Input.Csv
 
 abbrev Field := Option (List Char)
 abbrev Row := List Field
 abbrev Tbl := List Row
+
+/-- the double quote character -/
+def dq : Char := Char.ofNat 34
 
 def special (c : Char) : Bool := c == ',' || c == '"' || c == '\n' || c == '\r'
 
@@ -41,7 +45,7 @@ def encode : Tbl → List Char
   | [] => []
   | r :: rs => encRow r ++ encode rs
 
-inductive Mode | start | unq | inq | aftq
+inductive Mode | start | unq | inq | aftq | cr
 deriving DecidableEq, Repr
 
 /-- `go mode field row rows input`: `field` = characters of the field being read, `row` = fields of the
@@ -53,13 +57,13 @@ def go : Mode → List Char → Row → Tbl → List Char → Option Tbl
       if c = '"' then go .inq [] row rows cs
       else if c = ',' then go .start [] (row ++ [none]) rows cs
       else if c = '\n' then go .start [] [] (rows ++ [row ++ [none]]) cs
-      else if c = '\r' then none
+      else if c = '\r' then go .cr [] (row ++ [none]) rows cs
       else go .unq [c] row rows cs
   | .unq, f, row, rows, c :: cs =>
       if c = ',' then go .start [] (row ++ [some f]) rows cs
       else if c = '\n' then go .start [] [] (rows ++ [row ++ [some f]]) cs
       else if c = '"' then none
-      else if c = '\r' then none
+      else if c = '\r' then go .cr [] (row ++ [some f]) rows cs
       else go .unq (f ++ [c]) row rows cs
   | .inq, f, row, rows, c :: cs =>
       if c = '"' then go .aftq f row rows cs else go .inq (f ++ [c]) row rows cs
@@ -67,7 +71,10 @@ def go : Mode → List Char → Row → Tbl → List Char → Option Tbl
       if c = '"' then go .inq (f ++ ['"']) row rows cs
       else if c = ',' then go .start [] (row ++ [some f]) rows cs
       else if c = '\n' then go .start [] [] (rows ++ [row ++ [some f]]) cs
+      else if c = '\r' then go .cr [] (row ++ [some f]) rows cs
       else none
+  | .cr, _, row, rows, c :: cs =>
+      if c = '\n' then go .start [] [] (rows ++ [row]) cs else none
 
 def decode (s : List Char) : Option Tbl := go .start [] [] [] s
 
